@@ -544,6 +544,7 @@ where
     }
     let ktid = sh.consumer_ktid.load(Ordering::SeqCst);
     let mut rc = RoundCheck::new();
+    let mut consumer_panicked = false;
     let mut added_extra = false;
     let poolmask: u64 = cfg.pool.iter().map(|s| 1u64 << (*s - 1)).sum();
     tot.instances += 1;
@@ -661,6 +662,12 @@ where
                 tot.bad09.push(format!("consumer ended although the instance was not closed [{}]", label));
                 break 'rounds;
             }
+            if cj.is_finished() {
+                // the thread is gone without having said "done": it panicked inside the iterator
+                consumer_panicked = true;
+                tot.bad10.push(format!("the consumer thread panicked inside the iterator (pending/wait/forever/poll must never panic) [{} round {}]", label, round));
+                break 'rounds;
+            }
             if crate::now_ms() - tq > 20_000 || evlog::OVERFLOW.load(Ordering::SeqCst) {
                 // the C10 rules do not need a stable point: run them over what was logged
                 let evs = evlog::snapshot();
@@ -714,8 +721,12 @@ where
     director::clear_rules();
     handle.close();
     let tw = crate::now_ms();
-    while !sh.consumer_done.load(Ordering::SeqCst) {
+    while !sh.consumer_done.load(Ordering::SeqCst) && !consumer_panicked {
         std::thread::sleep(std::time::Duration::from_millis(1));
+        if cj.is_finished() && !sh.consumer_done.load(Ordering::SeqCst) {
+            tot.bad10.push(format!("the consumer thread panicked inside the iterator [{}]", label));
+            break;
+        }
         if crate::now_ms() - tw > 20_000 {
             // decided by w_close (C11); here it only prevents the run from continuing
             tot.inconclusive = Some(format!("consumer did not end after close [{}]", label));
@@ -783,6 +794,7 @@ pub fn main(args: &[String]) -> i32 {
             else if b.contains("twice") { "record-yielded-twice" }
             else if b.contains("differs") || b.contains("matches no delivery") || b.contains("no such delivery") || b.contains("was delivered as") { "record-not-faithful" }
             else if b.contains("out of delivery order") { "records-out-of-order" }
+            else if b.contains("panicked") { "consumer-panicked" }
             else { "iterator-misc" };
         emit_violation("C10", sig, b);
         nviol += 1;
